@@ -15,6 +15,13 @@ Model driver for C02. One case = one history on a fresh Directory volume:
   put2:<B>:<n>:<ja>:<jb>:cancel|finish|kill   two overlapping PUTs of the same block (see the Go driver)
   touch:<B>:<mode>  del:<B>:<lt>:<mode>  untrash:<B>:<mode>  empty:<mode>      mode = run | k<i>
 
+  mv <B>:<v0>,<v1>,…:<mode>         one PUT on a server with several Directory volumes (mounts in this order; a fresh
+                                    process, so NextWritable = writables[1 % len]); v = pre-state of the block on that
+                                    volume (- absent, i intact, c other bytes, l block + extra bytes) followed by flags
+                                    R (ReadOnly), F (marked full), X (every WriteBlock on it fails at Chtimes: its temp
+                                    file is unlinked just before the call); mode = run | k<i> | c<i>. Points are
+                                    printed as <mount>/<id>.
+
 B = <size>.<seed>. After every process op: `<result>,<points reached> ; get:… idx=… ls=…`, ops joined
 by " | ". Where the code is nondeterministic (cancellation of a PUT of the empty block before the
 copy started, last op only) the alternatives are joined by " || ".
@@ -22,6 +29,7 @@ copy started, last op only) the alternatives are joined by " || ".
 import ArvVerif.Base.MD5
 import ArvVerif.Base.Loop
 import ArvVerif.Model.C02
+import ArvVerif.Model.C02_MV
 open ArvVerif ArvVerif.C02
 
 namespace C02D
@@ -434,6 +442,150 @@ def runHist (ops : List String) (serialize : Bool := false) : Option (List Strin
           | _, _ => none) (some [])
   go ops { serialize := serialize } []
 
+
+/-! ### several volumes (`mv` cases) -/
+
+structure MVol where
+  pre : Char
+  ro : Bool
+  full : Bool
+  failing : Bool
+
+def parseMVol (s : String) : Option MVol :=
+  match s.toList with
+  | [] => none
+  | c :: flags =>
+    if !(c == '-' || c == 'i' || c == 'c' || c == 'l') then none
+    else if !(flags.all (fun f => f == 'R' || f == 'F' || f == 'X')) then none
+    else some ⟨c, flags.contains 'R', flags.contains 'F', flags.contains 'X'⟩
+
+def mvKillPrefix (evs : List MEv) (i : Nat) : Option Nat × List String :=
+  let rec go (es : List MEv) (pos seen : Nat) (acc : List String) : Option Nat × List String :=
+    match es with
+    | [] => (none, acc.reverse)
+    | (v, e) :: rest =>
+      match e.pt with
+      | some p =>
+        let id := s!"{v}/{p.id}"
+        if seen == i then (some pos, (id :: acc).reverse) else go rest (pos + 1) (seen + 1) (id :: acc)
+      | none => go rest (pos + 1) seen acc
+  go evs 0 0 []
+
+def mvAllPoints (evs : List MEv) : List String := evs.filterMap (fun (v, e) => e.pt.map (fun p => s!"{v}/{p.id}"))
+
+/-- the run-time fault of an `X` volume: its temp file is unlinked right before WriteBlock's Chtimes
+(an environment step), so that the call fails; "F" is reported after that point -/
+def mvInjectFaults (vols : Array MVol) (evs : List MEv) : List MEv :=
+  let rec go (es : List MEv) (lastTmp : List (Nat × Path)) (acc : List MEv) : List MEv :=
+    match es with
+    | [] => acc.reverse
+    | (v, e) :: rest =>
+      let lastTmp := match e.eff with
+        | .createTemp p _ => (v, p) :: lastTmp.filter (fun x => x.1 != v)
+        | _ => lastTmp
+      let isChtimes := match e.pt with
+        | some p => p.fn == .writeBlock && p.idx == 7
+        | none => false
+      if isChtimes && (vols[v]?.map (·.failing)).getD false then
+        match lastTmp.find? (fun x => x.1 == v) with
+        | some (_, p) => go rest lastTmp ((v, e) :: (v, ⟨none, .remove p⟩) :: acc)
+        | none => go rest lastTmp ((v, e) :: acc)
+      else go rest lastTmp ((v, e) :: acc)
+  go evs [] []
+
+def mvObserve (b : Body) (hash : Bytes → Name) (c : MVCfg) (vols : Array MVol) (vs : Nat → FS) : String :=
+  let showGet (r : GetRes) : String :=
+    match r with
+    | .ok d => s!"200/{d.length}/{String.ofList (hash d)}"
+    | .notFound => "404"
+    | .diskHashError => "500"
+  let gets := s!"get:{b.spec}={showGet (getBlockMV hash c vs b.h)}"
+  let vgets := (List.range c.n).map (fun i => s!"v{i}:get={showGet (getBlock hash (vs i) b.h)}")
+  let idx := sortStrings ((indexMV c vs).map (fun (n, sz, mt) =>
+    s!"{String.ofList n}+{sz}@{if nowT < mt + ttlT then "new" else "old"}"))
+  let idxS := if idx.isEmpty then "-" else ",".intercalate idx
+  let ls := sortStrings ((List.range c.n).flatMap (fun i =>
+    [s!"m{i}/"] ++ (if (vols[i]?.map (·.full)).getD false then [s!"m{i}/full:10"] else []) ++
+    (vs i).dirs.map (fun d => s!"m{i}/{String.ofList d}/") ++
+    (vs i).files.map (fun (p, f) => s!"m{i}/{String.ofList p.dir}/{canonName p.name}:{f.data.length}")))
+  " ".intercalate ([gets] ++ vgets ++ [s!"idx=200/complete:{idxS}", s!"ls={",".intercalate ls}"])
+
+def stepMV (spec : String) : Option (List String) :=
+  match spec.splitOn ":" with
+  | [bs, vsS, ms] => do
+    let b ← parseBody bs
+    let mode ← parseMode ms
+    let vols ← (vsS.splitOn ",").mapM parseMVol
+    let vols := vols.toArray
+    if vols.size == 0 || vols.size > 4 then none
+    let hash : Bytes → Name := fun d => if d.length == b.data.length && d == b.data then b.h else md5Name d
+    let c : MVCfg := ⟨vols.size, fun i => (vols[i]?.map (·.ro)).getD false, fun i => (vols[i]?.map (·.full)).getD false⟩
+    let vs : Nat → FS := fun i =>
+      let fs := FS.empty
+      match vols[i]?.map (·.pre) with
+      | some 'i' => (Step.apply fs (.mkdirAll (blockDir b.h))).set (blockPath b.h) ⟨b.data, 0⟩
+      | some 'c' => (Step.apply fs (.mkdirAll (blockDir b.h))).set (blockPath b.h) ⟨corruptOf b.data, 0⟩
+      | some 'l' => (Step.apply fs (.mkdirAll (blockDir b.h))).set (blockPath b.h) ⟨b.data ++ "EXTRA".toUTF8.toList, 0⟩
+      | _ => fs
+    let chunks := if b.data.isEmpty then [] else [b.data]
+    let ws := c.writables
+    let i0 := (ws[1 % ws.length]?).getD 0
+    let failOf (i : Nat) : WBFail := if (vols[i]?.map (·.failing)).getD false then .chtimes else .none
+    let mkW (i sfx : Nat) (chunks : List Bytes) (rend : ReaderEnd) : WBIn :=
+      ⟨b.h, natDigits sfx, chunks, rend, failOf i, nowT, ((vs i).get (blockPath b.h)).isSome⟩
+    let mkP (cmpCancel cancelCall : Option Nat) (errCall : Bool) : MPutIn :=
+      -- errCall: the cancelled call's writer sees an error before any byte
+      let wOf (call i sfx : Nat) : WBIn :=
+        if errCall && cancelCall == some call then mkW i sfx [] .err else mkW i sfx chunks .eof
+      let callOf (i : Nat) : Nat := 1 + (ws.idxOf i)
+      ⟨b.h, b.data, nowT, fun _ => none, 1, wOf 0 i0 0, fun i => wOf (callOf i) i (1 + i), cmpCancel, cancelCall⟩
+    let code : Resp → String
+      | .ok200 => "200" | .badRequest => "400" | .hashMismatch => "422" | .collision => "500"
+      | .disconnect => "503" | .fail => "500" | .full => "503"
+    let runP (p : MPutIn) : List MEv × Resp :=
+      let r := handlePutMV hash c vs p
+      (mvInjectFaults vols r.1, r.2.1)
+    let addF (pts : List String) : List String :=
+      pts.flatMap (fun s =>
+        let v := ((s.splitOn "/").headD "").toNat?.getD 0
+        if s.endsWith "/WriteBlock:os.Chtimes:7" && (vols[v]?.map (·.failing)).getD false then [s, "F"] else [s])
+    let out (evs : List MEv) (result : String) (pts : List String) : String :=
+      s!"{result},{showPts (addF pts)} ; {mvObserve b hash c vols (runMV vs evs)}"
+    let full := runP (mkP none none false)
+    match mode with
+    | .run => some [out full.1 (code full.2) (mvAllPoints full.1)]
+    | .kill i =>
+      match mvKillPrefix full.1 i with
+      | (some n, pts) =>
+        -- a kill at the Chtimes point of an X volume comes after the hook unlinked the temp file ("F" printed)
+        some [out (full.1.take n) "killed" pts]
+      | (none, pts) => some [out full.1 (code full.2) pts]
+    | .cancel i =>
+      match mvKillPrefix full.1 i with
+      | (none, _) => some [out full.1 (code full.2) (mvAllPoints full.1)]
+      | (some _, pts) =>
+        let lastPt := pts.getLast?.getD ""
+        let v := ((lastPt.splitOn "/").headD "").toNat?.getD 0
+        let id := "/".intercalate ((lastPt.splitOn "/").drop 1)
+        if id.startsWith "stat:" || id.startsWith "getFunc:" then
+          let r := runP (mkP (some (ws.idxOf v)) none false)
+          some [out r.1 (code r.2) (mvAllPoints r.1)]
+        else if id.startsWith "Touch:" then some [out full.1 (code full.2) (mvAllPoints full.1)]
+        else
+          -- the k-th WriteBlock run with points = the k-th Put call on a volume that is not full
+          let runs := (pts.filter (fun s => s.endsWith "/WriteBlock:os.MkdirAll:0")).length
+          let calls := ((0, i0) :: ws.zipIdx.map (fun (w, j) => (1 + j, w))).filter (fun (_, w) => !c.full w)
+          let call := (calls[runs - 1]?.map (·.1)).getD 0
+          let nwb := ((pts.reverse.takeWhile (fun s => !s.endsWith "/WriteBlock:os.MkdirAll:0")).length) + 1
+          let eofRun := runP (mkP none (some call) false)
+          let errRun := runP (mkP none (some call) true)
+          let o (r : List MEv × Resp) := out r.1 (code r.2) (mvAllPoints r.1)
+          if nwb > 3 then some [o eofRun]
+          else if !b.data.isEmpty then some [o errRun]
+          else some [o eofRun, o errRun]
+    | _ => none
+  | _ => none
+
 /-- every point the instrumenter is expected to create, in source order of unix_volume.go -/
 def allPointIds : List String :=
   [Fn.touch, Fn.getFunc, Fn.stat, Fn.writeBlock, Fn.trash, Fn.untrash, Fn.emptyTrash].flatMap (fun fn =>
@@ -444,6 +596,10 @@ def step (line : String) : String :=
   | ["points", ids] => if ids.splitOn "," == allPointIds then "points-ok" else "points-differ"
   | ["hist", ops] =>
     match runHist (ops.splitOn ";") with
+    | some outs => " || ".intercalate outs
+    | none => "bad-op"
+  | ["mv", spec] =>
+    match stepMV spec with
     | some outs => " || ".intercalate outs
     | none => "bad-op"
   | ["hists", ops] =>
